@@ -506,7 +506,8 @@ const (
 	forgeStripCert      // delegated signature, certificate removed
 	forgeAlgOID         // declared algorithm differs from the one used
 	forgeTrailing       // bytes after the response
-	forgeSelfSignedCert // embedded self-signed certificate carrying the issuer's name, attacker key
+	forgeSelfSignedCert // embedded self-signed certificate of the stranger CA (its own name), stranger key signs
+	forgeImpostorCert   // embedded certificate carrying the ISSUER's subject DN byte for byte, self-signed with the stranger's key, which also signs the response
 	nForge
 )
 
@@ -573,7 +574,7 @@ func genBuilt(t *rapid.T, multi bool) BuiltCase {
 		c.NilCert = uniform(t, "nil-cert", 8) == 0
 		return c
 	}
-	c.Forge = rapid.SampledFrom([]int{forgeNone, forgeNone, forgeNone, forgeStale, forgeStrangerSigns, forgeStrangerCert, forgeAttackerCert, forgeStripCert, forgeAlgOID, forgeTrailing, forgeSelfSignedCert}).Draw(t, "forge")
+	c.Forge = rapid.SampledFrom([]int{forgeNone, forgeNone, forgeNone, forgeStale, forgeStrangerSigns, forgeStrangerCert, forgeAttackerCert, forgeStripCert, forgeAlgOID, forgeTrailing, forgeSelfSignedCert, forgeImpostorCert, forgeImpostorCert}).Draw(t, "forge")
 	c.ForgePos = rapid.Uint32().Draw(t, "forge-pos")
 	if c.Forge == forgeNone || uniform(t, "edit-too", 4) == 0 {
 		for j := []int{0, 1, 1, 1, 2, 2, 3}[uniform(t, "edits", 7)]; j > 0; j-- {
@@ -639,6 +640,11 @@ func (c BuiltCase) build(r *kit.R) (out []byte, genuine bool, signedTBS []byte) 
 	case forgeSelfSignedCert:
 		// self-signed certificate of the stranger: verifies the response, is not signed by the issuer
 		certs, signKeyIdx, genuine = [][]byte{ca(c.Stranger).Raw}, c.Stranger, false
+	case forgeImpostorCert:
+		// names the issuer (same RawSubject) but is neither the issuer's certificate nor signed by the issuer
+		imp := impostor(c.Issuer, c.Stranger)
+		certs, signKeyIdx, genuine = [][]byte{imp.Raw}, c.Stranger, false
+		rname, rbits = tbsCertFields(imp.Raw)
 	}
 	signKey := keys.Get(signKeyIdx)
 	if alg.kind != signKey.Kind {
